@@ -6,7 +6,7 @@ From Coq Require Import String ZArith QArith Bool Arith Lia Permutation List.
 From GT Require Import Base.UTree Model.Reroot Model.Prune Model.Collapse Model.NNI Model.History Model.Heap Model.HeapEdit Model.HeapSpec
      Proofs.Enum Proofs.HeapBase Proofs.HeapRep Proofs.HeapGood Proofs.HeapGoodRep Proofs.HeapReroot Proofs.HeapUnroot
      Proofs.HeapNocheck Proofs.HeapGraft Proofs.HeapGraftSq Proofs.HeapCollapseTree Proofs.HeapPaths Proofs.HeapCollapseSq
-     Proofs.HeapRerootL Proofs.HeapNNIMain Proofs.HeapNNISq Proofs.HeapPruneTree Proofs.HeapPruneSq Proofs.HeapRotateSq Model.HeapEdit2 Proofs.HeapSortSq Proofs.HeapSingleSq.
+     Proofs.HeapRerootL Proofs.HeapNNIMain Proofs.HeapNNISq Proofs.HeapPruneTree Proofs.HeapPruneSq Proofs.HeapRotateSq Model.HeapEdit2 Proofs.HeapSortSq Proofs.HeapSingleSq Proofs.NNIBase Proofs.HeapNNIUndoSq.
 Import ListNotations.
 Local Close Scope Q_scope.
 
@@ -33,10 +33,37 @@ Proof.
     + subst prev. cbn [option_map fst opt_nat_eqb] in E. rewrite Nat.eqb_refl in E. discriminate.
 Qed.
 
+(** what the guard of [nni_pre] establishes *)
+Lemma nni_pre_ok h lt r q : Rep h lt -> nni_pre r h = HOk q ->
+  exists n1 n2 hn1 hn2 ec edc sub,
+    alookup n1 (hnodes h) = Some hn1 /\ alookup n2 (hnodes h) = Some hn2 /\
+    In (n2, ec) (slots_of hn1) /\ alookup ec (hedges h) = Some edc /\ hleft edc = n1 /\
+    length (hneigh hn1) = 3 /\ length (hneigh hn2) = 3 /\
+    new_nni_heap h n1 n2 (r_cross r) = HOk q /\
+    lnode_at lt (r_path r) = Some sub /\ lid sub = n1 /\
+    nth_error (hneigh hn1) (r_k r) = Some n2 /\ nth_error (hneigh hn2) (r_j r) = Some n1.
+Proof.
+  intros R E. unfold nni_pre in E.
+  destruct (walk h None (hroot h) (r_path r)) as [n1| |] eqn:Ew; cbn [hbind] in E; try discriminate.
+  pose proof (rep_shape _ _ R) as Sh. rewrite (rep_root _ _ R) in Ew.
+  destruct (walk_lnode_at h (r_path r) lt None n1 Sh Ew) as [sub [Hp Hl]].
+  unfold get_node at 1 in E. destruct (alookup n1 (hnodes h)) as [hn1|] eqn:H1; cbn [hbind] in E; [|discriminate].
+  destruct (nth_error (hneigh hn1) (r_k r)) as [n2|] eqn:Ek; [|discriminate].
+  destruct (nth_error (hbr hn1) (r_k r)) as [ec|] eqn:Eb; [|discriminate].
+  unfold get_node at 1 in E. destruct (alookup n2 (hnodes h)) as [hn2|] eqn:H2; cbn [hbind] in E; [|discriminate].
+  unfold get_edge at 1 in E. destruct (alookup ec (hedges h)) as [edc|] eqn:Ec; cbn [hbind] in E; [|discriminate].
+  match type of E with (if ?c then _ else _) = _ => destruct c eqn:Eg end; [|discriminate].
+  apply andb_true_iff in Eg. destruct Eg as [Eg Ej]. apply andb_true_iff in Eg. destruct Eg as [Eg El].
+  apply andb_true_iff in Eg. destruct Eg as [D1 D2]. apply Nat.eqb_eq in D1, D2, El.
+  destruct (nth_error (hneigh hn2) (r_j r)) as [m|] eqn:Erj; cbn [opt_nat_eqb] in Ej; [|discriminate]. apply Nat.eqb_eq in Ej. subst m.
+  assert (Hin : In (n2, ec) (slots_of hn1)) by (eapply nth_error_In; apply nth_combine; eassumption).
+  exists n1, n2, hn1, hn2, ec, edc, sub. repeat split; assumption.
+Qed.
+
 Theorem run_hop_square o h t h' : Good h -> abs h = Some t -> run_hop_heap o h = HOk h' ->
   Good h' /\ exists t', run_hop_tree o t = Ok t' /\ abs h' = Some t'.
 Proof.
-  intros G Ha E. destruct o as [i|i| |name k|rr rt k|r|nm|cs| | ]; cbn [run_hop_heap run_hop_tree] in *.
+  intros G Ha E. destruct o as [i|i| |name k|rr rt k|r|nm|cs| | |k undo]; cbn [run_hop_heap run_hop_tree] in *.
   - destruct (tree_nodes h) as [ns| |] eqn:En; cbn [hbind] in E; try discriminate.
     destruct (nth_error ns i) as [n|] eqn:Ei; [|discriminate].
     pose proof (reroot_heap_refines h t ns i n G Ha En Ei) as H. rewrite E in H.
@@ -88,6 +115,18 @@ Proof.
     split; [exact G2|]. eexists. split; [reflexivity|exact A2].
   - destruct (remove_single_nodes_square h t G Ha) as (h2 & Ev & G2 & A2). rewrite Ev in E. injection E as <-.
     split; [exact G2|]. eexists. split; [reflexivity|exact A2].
+  - rewrite Ha in E. unfold nni_step. destruct (nni_pick k t) as [r|] eqn:Epick.
+    2:{ injection E as <-. split; [exact G|]. exists t. split; [reflexivity|exact Ha]. }
+    assert (V : valid r t).
+    { apply nni_list_valid. unfold nni_pick in Epick. destruct (nni_list t) as [|r0 l0] eqn:El; [discriminate|]. eapply nth_error_In. exact Epick. }
+    destruct (Good_Rep h G) as [lt R]. pose proof (Rep_abs _ _ R) as Ha'. rewrite Ha in Ha'. injection Ha' as ->.
+    unfold nni_apply_undo_at in E. destruct (nni_pre r h) as [q| |] eqn:Epre; cbn [hbind] in E; try discriminate.
+    destruct (nni_pre_ok h lt r q R Epre) as (n1 & n2 & hn1 & hn2 & ec & edc & sub & H1 & H2 & Hin & Ec & El & D1 & D2 & Eq & Hp & Hl & Ek & Erj).
+    destruct (nni_apply_undo_square h lt r n1 n2 q hn1 hn2 ec edc sub R H1 H2 Hin Ec El D1 D2 Eq Hp Hl Ek Erj V)
+      as (h1 & lt' & h2 & Ev & R' & Hap & Ev2 & R2 & Hun).
+    rewrite Ev in E. cbn [hbind] in E. rewrite Hap. destruct undo.
+    + rewrite Ev2 in E. injection E as <-. rewrite Hun. split; [exact (Rep_Good _ _ R2)|]. eexists. split; [reflexivity|exact (Rep_abs _ _ R2)].
+    + injection E as <-. split; [exact (Rep_Good _ _ R')|]. eexists. split; [reflexivity|exact (Rep_abs _ _ R')].
 Qed.
 
 (** the pointer-level half of C03 for these operations, as one statement *)
@@ -111,4 +150,6 @@ Proof. reflexivity. Qed.
 Lemma run_hop_tree_history_sort t : run_hop_tree HSort t = run_op OSort t.
 Proof. reflexivity. Qed.
 Lemma run_hop_tree_history_rmsingle t : run_hop_tree HRmSingle t = run_op ORmSingle t.
+Proof. reflexivity. Qed.
+Lemma run_hop_tree_history_nni k undo t : run_hop_tree (HNni k undo) t = run_op (ONni k undo) t.
 Proof. reflexivity. Qed.
